@@ -18,9 +18,17 @@ def toBasePath (base cwd p : Bytes) : Bytes :=
 def fromBasePath (base p : Bytes) : Option Bytes :=
   if base.isPrefixOf p then some (join .linux [[], p.drop base.length, [SL]]) else none
 
+/-- BasePathFS.inBasePath: `p` is the base path or a path below it ("/base/path2" starts with "/base/path" but is not
+    below it): after the prefix comes nothing, a separator, or the base path itself ends with a separator -/
+def inBase (base p : Bytes) : Bool :=
+  base.isPrefixOf p &&
+    (match p.drop base.length with
+     | [] => true
+     | c :: _ => c == SL || base.getLast? == some SL)
+
 /-- Getwd of the view given the base's current directory -/
 def getwd (base baseCwd : Bytes) : Option Bytes :=
-  fromBasePath base (if base.isPrefixOf baseCwd then baseCwd else base)
+  fromBasePath base (if inBase base baseCwd then baseCwd else base)
 
 /-- `q` is the base directory or lies lexically below it without any ".." element -/
 def Within (base q : Bytes) : Prop :=
